@@ -147,6 +147,7 @@ func runC08(c *Ctx) {
 	c.S.Floor("T13", "slices at loop-carried bounds under a foreign loop bound", 1, c.foreignBoundSliceRule("T13", fns))
 	c.S.Floor("T16", "image slices of package ovmf bounded by decoded fields", 1, c.decodedBoundRule("T16"))
 	c.S.Note("T20: %d non-constant accesses to package-level arrays in the firmware-analysis closure", c.tableIndexRule("T20", fns))
+	c.S.Floor("T21", "differences of two non-constant values used as bounds (or unsigned) in the firmware-analysis closure", 5, c.guardedSubRule("T21", fns, t21Reasons, os.Getenv("VCHECK_SURVEY") != ""))
 	if os.Getenv("VCHECK_SURVEY") != "" {
 		c.surveyAccesses(fns)
 	}
@@ -664,4 +665,12 @@ func (c *Ctx) nullableResultRule(rule string, fns []*ssa.Function) {
 		}
 	}
 	c.S.Count("nullable_result_derefs", n)
+}
+
+// t21Reasons: differences whose safety rests on a value argument (interval algebra, constant ranges), by package and
+// operand shape. Confirmed by reading; one line of reason each.
+var t21Reasons = map[string]string{
+	"ovmf: end() - end()":                               "the intersection lies inside the bank it was cut from, so it ends no later than the bank",
+	"ovmf: minPhysicalAddress() - maxPhysicalAddress()": "start = max of the starts and end = min of the ends of two regions just found to overlap: start < end",
+	"sev: (ProductHighAddress()+k) - guestLen":          "guestLen is a uint32 and the product's high address is at least 2^47",
 }
